@@ -182,12 +182,42 @@ def _intent_from_trace(rule):
     return subs, objs
 
 
+def _canonical_from_trace(rule):
+    """For a canonical chain (modules_that, filter, verb, import type[, filter]) the builder trace alone says what the
+    rule is: verb, direction, except and 'anything' are taken from the CALLS the caller made, not from whatever flags the
+    library derived from them."""
+    from .refmodel import automata as A
+
+    tr = [e for e in (rule.__dict__.get(TRACE_ATTR) or []) if e[2] == "ok" and e[0] != "assert_applies"]
+    h = [e[0] for e in tr]
+    ok = (
+        len(h) in (4, 5)
+        and h[0] == "modules_that"
+        and h[1] in A.RULE_FILTERS
+        and h[2] in A.RULE_VERBS
+        and h[3] in A.RULE_IMPORT
+        and ((len(h) == 5 and h[4] in A.RULE_FILTERS and not A.RULE_IMPORT[h[3]][2]) or (len(h) == 4 and A.RULE_IMPORT[h[3]][2]))
+    )
+    if not ok:
+        return None
+    d, exc, anything = A.RULE_IMPORT[h[3]]
+    return {"verb": h[2], "verbs": [h[2]], "dir": d, "exc": exc, "anything": anything}
+
+
 def snapshot_rule(rule) -> dict:
     cfg = _snapshot_rule_config(rule)
     try:
         intent = _intent_from_trace(rule)
+        canon = _canonical_from_trace(rule)
     except Exception:  # noqa: BLE001
-        intent = None
+        intent, canon = None, None
+    if canon is not None and intent is not None:
+        derived = {k: cfg[k] for k in ("verb", "verbs", "dir", "exc", "anything")}
+        if derived != canon and not (cfg["exc"] and not cfg["anything"] and canon["anything"]):  # (an applied 'anything' rule is stored as 'except itself')
+            HUB.acc.count("rule_flags_differ_from_the_calls_the_caller_made")
+            cfg.update(canon)
+            if canon["anything"]:
+                cfg["objs"] = []
     if intent is not None and not cfg["anything"]:
         subs, objs = intent
         if objs is not None and (subs != cfg["subs"] or objs != cfg["objs"]) and not any(k == "regex" for k, _ in cfg["subs"] + cfg["objs"]):
